@@ -2,7 +2,7 @@
 
 use crate::checks::common::{logical_for, write_sync};
 use crate::gen;
-use crate::io::{Op, OpKind, Shared, SharedA};
+use crate::io::{Op, OpKind, Sched, Shared, SharedA};
 use crate::obs::{guard, Ctx};
 use crate::refimpl::{self as R, RHeader};
 use crate::rng::hash_bytes;
@@ -169,7 +169,12 @@ pub fn run(ctx: &mut Ctx) {
         let ids: Vec<u64> = if all.len() <= 500 { all.clone() } else { (0..500).map(|_| *rng.pick(&all)).collect() };
         let asyncm = (i / 2) % 2 == 1;
         let partial = i % 3 == 0;
-        let range = if partial && !all.is_empty() {
+        let range = if partial && !all.is_empty() && i % 9 == 0 {
+            // a range selecting exactly one stored id ("point query")
+            let a = *rng.pick(&all);
+            ctx.count("partial_opens_selecting_one_id");
+            (a, a)
+        } else if partial && !all.is_empty() {
             let a = *rng.pick(&all);
             let b = *rng.pick(&all);
             (a.min(b), a.max(b))
@@ -182,9 +187,19 @@ pub fn run(ctx: &mut Ctx) {
             (true, false) => "PMTiles::from_async_reader",
             (true, true) => "PMTiles::from_async_reader_partially",
         };
+        // every fifth archive through a stream that returns fewer bytes than asked for (first read of 1-126 bytes, then
+        // random short reads): which bytes are touched must not depend on that
+        let fragment = i % 5 == 2 || i % 5 == 3;
+        let frag_sched = if i % 10 < 5 { Sched::Random(crate::rng::Rng::new(rng.next()), 300) } else { Sched::Fixed(*rng.pick(&[61usize, 126, 127, 4000])) };
+        if fragment {
+            ctx.count("archives_read_through_short_reads");
+        }
         let r = guard(|| -> Result<(), String> {
             if asyncm {
                 let s = SharedA::recording(c.bytes.clone(), true);
+                if fragment {
+                    s.core.lock().expect("lock").rsched = frag_sched.clone();
+                }
                 let mon = s.clone();
                 let mut pm = block_on(PMTiles::from_async_reader_partially(s, range.0..=range.1)).map_err(|e| format!("open failed: {e}"))?;
                 let open_ops = mon.ops_since(0);
@@ -211,6 +226,9 @@ pub fn run(ctx: &mut Ctx) {
                 }
             } else {
                 let s = Shared::recording(c.bytes.clone());
+                if fragment {
+                    s.core.lock().expect("lock").rsched = frag_sched.clone();
+                }
                 let mon = s.clone();
                 let mut pm = PMTiles::from_reader_partially(s, range.0..=range.1).map_err(|e| format!("open failed: {e}"))?;
                 let open_ops = mon.ops_since(0);
